@@ -85,7 +85,7 @@ PROPS = {
     "C10": _p("harness.c10",
               "Operation-code vectors (value, error, call, is_computed, set_value, set_error, reset_unsafe, "
               "subscribe good/raising/self-unsubscribing) of length 3-5 on 8 future kinds against an explicit reference state machine "
-              "including notification log and provider-run counter; both builds."),
+              "including notification log and provider-run counter; errors include falsy exception objects; both builds."),
     "C11": _p("harness.c11",
               "Operation-code vectors of length 3-5 over add/flush/cancel/value/error/queries/str with 10 flush-body "
               "plans (incl. a _cancel() hook that answers an item itself) on BatchBase subclasses and DebugBatch against a reference lifecycle machine (once-only "
@@ -94,7 +94,7 @@ PROPS = {
               "Two (thorough: three) callers inside a real computation with symbolic callee kind, spelling, "
               "arguments, delay and dirty(), symbolic priorities: identity of returned tasks equals the reference "
               "in-flight map evaluated at the call moment, body-run counter per key, shared result objects, re-run "
-              "after completion, empty table at the end; executions completed on another thread; executions that "
+              "after completion, empty table at the end; executions completed on another thread; a call left in flight by a thread that has ended followed by the same call on a later thread; executions that "
               "end abnormally (failing context resume, raising clean-up)."),
     "C13": _p("harness.c13",
               "Call histories against reference caches: alru_cache (LRU order, capacity, key_fn, spellings, raising "
